@@ -1,5 +1,5 @@
 (* C04 -- NNX transforms keep Python reference semantics: same result and state as eager. *)
-From Flaxm Require Import Lib.Harness Model.NnxFilters Model.Graph Model.UpdateCtx Proofs.Graph Proofs.UpdateCtx.
+From Flaxm Require Import Lib.Harness Model.NnxFilters Model.Graph Model.UpdateCtx Proofs.Graph Proofs.UpdateCtx Proofs.GraphIso Proofs.CtxSim.
 
 (* steps (1)-(2): all arguments are flattened with ONE ref_index, so the copies the function works on alias each
    other exactly like the caller's objects do -- also across arguments (an object passed twice, or reachable from two
@@ -43,9 +43,28 @@ Theorem C04_merge_back : forall (h : heap) (ri1 : list loc) hi out3 g3 ls3 ri3,
 Proof. exact merge_back_spec. Qed.
 Print Assumptions C04_merge_back.
 
-(* NOT proved (decided per run by the correspondence, which evaluates run_eager and run_ctx on every generated
-   history and compares both with the real transforms): that the functions of the language cannot tell isomorphic
-   heaps apart, which together with the three theorems above gives run_ctx = run_eager up to the isomorphism. *)
+(* THE property, for every function of the language (reads, Variable updates with arithmetic, setattr of statics /
+   aliases / new Variables / new nodes, delattr), every heap, every tuple of possibly aliased arguments and every
+   number of applications of the body: whenever the eager run and the protocol run (jit, remat: structure edits
+   allowed) both complete, they are observed alike -- same returned value, same graph of (arguments, returned object)
+   as graphdef + leaves (so: same types, statics, Variable values and metadata, same sharing and cycles), and every
+   object of it is the same one of the caller's original objects in both, new objects being new in both *)
+Theorem C04_ctx_equals_eager : forall f times h args e c oe oc,
+  run_eager f times h args = Some e -> run_ctx true f times h args = Some c ->
+  observe h args e = Some oe -> observe h args c = Some oc -> oe = oc.
+Proof. exact ctx_equals_eager. Qed.
+Print Assumptions C04_ctx_equals_eager.
+(* cond / switch / while_loop / fori_loop / cached_partial: the same for functions that only update Variable values *)
+Theorem C04_ctx_equals_eager_values_only : forall f times h args e c oe oc,
+  run_eager f times h args = Some e -> run_ctx false f times h args = Some c ->
+  observe h args e = Some oe -> observe h args c = Some oc -> oe = oc.
+Proof. exact ctx_equals_eager_values_only. Qed.
+Print Assumptions C04_ctx_equals_eager_values_only.
+
+(* NOT proved: that the protocol run completes whenever the eager run does (the fuel of the model's flatten is
+   sufficient), and that JAX evaluates the traced function like Python evaluates it; both are decided per run by the
+   correspondence, which evaluates run_eager and run_ctx on every generated history and compares both with the real
+   eager call and the real transform. *)
 
 (* non-vacuity: two arguments that alias (the second is a child of the first and holds the same Param); the function
    updates the shared Param, adds a new Cache held by both nodes, deletes a static attribute and adds a new node *)
